@@ -22,12 +22,13 @@ type TV struct {
 // the initial constant of that heap.
 type State struct {
 	m   map[string]string
-	b   map[string]string // heap name -> allocation counter at the time of its last write
-	enc *Enc
+	b    map[string]string // heap name -> allocation counter at the time of its last write
+	bdef string            // bound for heaps not in b (allocation counter after the last call / loop havoc)
+	enc  *Enc
 }
 
 func (st *State) clone() *State {
-	n := &State{m: make(map[string]string, len(st.m)), b: make(map[string]string, len(st.b)), enc: st.enc}
+	n := &State{m: make(map[string]string, len(st.m)), b: make(map[string]string, len(st.b)), bdef: st.bdef, enc: st.enc}
 	for k, v := range st.m {
 		n.m[k] = v
 	}
@@ -42,7 +43,17 @@ func (st *State) boundOf(h Heap) string {
 	if v, ok := st.b[h.Name]; ok {
 		return v
 	}
+	if st.bdef != "" {
+		return st.bdef
+	}
 	return st.enc.initConst(allocHeap)
+}
+
+// resetBounds: a callee (or loop body) may have allocated objects and initialised their
+// fields in any heap, so every heap may now hold references up to the current counter.
+func (st *State) resetBounds() {
+	st.b = map[string]string{}
+	st.bdef = st.get(allocHeap)
 }
 
 func (st *State) get(h Heap) string {
@@ -230,6 +241,17 @@ func (c *EvalCtx) eval(e Expr) TV {
 	case *EIdent:
 		return c.evalIdent(e.Name)
 	case *EUnary:
+		if e.Op == "&" {
+			// address of an address-taken local variable
+			id, ok := e.X.(*EIdent)
+			if !ok || c.resolve == nil {
+				c.errf("& needs a local variable")
+			}
+			if v, ok := c.resolve("&" + id.Name); ok {
+				return v
+			}
+			c.errf("%s is not an address-taken local variable here", id.Name)
+		}
 		x := c.eval(e.X)
 		switch e.Op {
 		case "!":
